@@ -50,6 +50,17 @@ struct lq_t : limited_queue<item_t> {
 template <typename T>
 struct q_t : queue<T> {
     std::size_t nawait() { std::lock_guard _(this->_mx); return this->_awaiters.size(); }
+    // asked from another thread (try_lock on a mutex the caller owns would be undefined); retried because try_lock may
+    // fail spuriously
+    bool lock_is_free() {
+        bool ok = false;
+        std::thread t([&] {
+            for (int i = 0; i < 5 && !ok; ++i)
+                if (this->_mx.try_lock()) { this->_mx.unlock(); ok = true; }
+        });
+        t.join();
+        return ok;
+    }
 };
 
 template <typename Q, typename T, bool limited>
@@ -277,6 +288,13 @@ void run_qcase(std::istream &in) {
                     head << "pushthrow nothrow woke=" << r;
                 } catch (const item_error &) {
                     head << "pushthrow threw";
+                }
+                if (!c.q->lock_is_free()) {
+                    // every later operation would block for ever: say so now instead of waiting for the alarm
+                    std::cout << head.str() << "\n";
+                    fflush(stdout);
+                    fprintf(stderr, "DEADLOCK: push() left the queue's lock locked when the item's constructor threw\n");
+                    _exit(42);
                 }
             }
         } else if (w[0] == "pop") {
